@@ -18,11 +18,11 @@ CHECKS = {
                 technique="TLA+ law (RexLaw) invariants (StartLaw, PhaseReturnsToGrid, FrequencySpacing) + trace validation of every recorded time stamp",
                 text="Exact equality of every recorded ts_scheduled/ts_max/ts_start/ts_end/delay/phase_scheduled and message ts_sent/ts_recv with the law; derived spacing/phase/advance claims are TLC invariants of the law."),
     "C05": dict(level="model_checking", ref="6 C05",
-                technique="PlusCal model of the synchronizer/lifecycle hand-shake (RexSync) exhaustively + deterministic gate-scheduler exploration of the real AsyncGraph over lifecycle histories + trace validation of consecutive episodes",
+                technique="PlusCal model of the synchronizer/lifecycle hand-shake (RexSync) exhaustively + deterministic gate-scheduler exploration of the real AsyncGraph over lifecycle histories (random / PCT / burst / user-first / user-last policies and a one-preemption sweep over the instants at which the next call begins) + trace validation of consecutive episodes; internal traces of coarse-gate executions validated against the PlusCal model of the task structure (RexAsync)",
                 text="RexSync (one label per shared access) has no stall state for any protocol history up to the bound with stop() as repaired, and finds both pinned defects with Fixed=FALSE; the real code is driven through 8 lifecycle histories x gate schedules: a logical deadlock, an escaped exception or a failed worker task is a violation; records of later episodes must be behaviours of the law from seq 0 / time 0 with payloads of their own episode only. The same histories run under Clock.WALL_CLOCK (gate, strictly increasing virtual time): calls must return, completed episodes are validated by RexOrder (sequence numbers from 0)."),
     "C06": dict(level="model_checking", ref="6 C06",
-                technique="trace validation: probe-log execution counts against RexLaw ticks (RexTrace clauses ExactlyOnce*) and against the compiled schedule (RexCompiled)",
-                text="The host-side probe log is the execution count: RexTrace consumes exactly one log entry per executed tick in sequence order, none for overridden / cancelled supervisor ticks, and rejects leftovers."),
+                technique="trace validation: probe-log execution counts against RexLaw ticks (RexTrace clauses ExactlyOnce*) and against the abstract machine of the compiled runtime (RexRun: RU/RS/RSo/RSx micro-operations over the projected Graph.timings)",
+                text="The host-side probe log is the execution count: RexTrace consumes exactly one log entry per executed tick in sequence order, none for overridden / cancelled supervisor ticks, and rejects leftovers. Compiled: RexRun consumes per generation exactly the run=True slots, none for masked slots, overridden supervisor steps and kinds in Graph(skip=[...]); rollouts of every stacked episode, gym-style histories with overrides, a full-length gym episode (the only way to reach the last partition), stacked episodes whose run masks differ."),
 }
 
 
@@ -46,7 +46,7 @@ CHECKS.update({
 
 CHECKS.update({
     "C16": dict(level="model_checking", ref="6 C16",
-                technique="TLA+ state machine of the configuration API (NodeConfig) checked exhaustively; TLC-simulated behaviours replayed on real BaseNode objects with state comparison after every call; episodes after set_delay validated by RexTrace",
+                technique="TLA+ state machine of the configuration API (NodeConfig) checked exhaustively; simulator walks of NodeConfigSim (operation kind chosen first) replayed on real BaseNode objects with state comparison after every call; episodes after set_delay validated by RexTrace",
                 text="NodeConfig: phase = longest expected-delay path over un-skipped connections, loop iff un-skipped cycle upstream, setters and the info round trip; every TLC behaviour is replayed on real nodes and phase / delays / distribution identity / input keys (shadow names) are compared through attributes and through node.info; simulated episodes after set_delay must follow the law with the new distributions."),
 })
 
